@@ -342,7 +342,7 @@ bool TabularDataFile::nextRow()
 		}
 		else
 		{
-			if (myisnumber(v, decimal))
+			if (myisnumber(v, decimal) || (decimal != '.' && myisnumber(v, '.')))
 			{
 				if (decimal != '.')
 					v.replaceme(decimal, '.');
